@@ -272,8 +272,11 @@ func c16R5(c *Ctx, r *Report, rule string) {
 			if e.Kind != "mapupdate" || !strings.HasPrefix(e.What, "makemap#") || len(e.Args) < 2 {
 				continue
 			}
-			stores++
 			key := e.Args[0]
+			if strings.HasPrefix(key, `"`) {
+				continue // a literal key: an entry of a table in the program text (command names ...), not an account taken from the configuration
+			}
+			stores++
 			if !strings.HasPrefix(key, "resolved(") {
 				problems = append(problems, "the account name "+key+" is stored without resolving placeholders")
 				continue
@@ -495,7 +498,15 @@ func c16Resolve(c *Ctx, r *Report, rule string) {
 			var maps []string
 			for k, v := range p.Heap {
 				if strings.HasPrefix(k, "smap:") && k != "smap:h.Credentials" && v.MS != nil {
-					maps = append(maps, k)
+					accounts := true // a map of strings to strings (a local dispatch table of another type is not the account table)
+					for _, mv := range v.MS {
+						if mv.K != "str" {
+							accounts = false
+						}
+					}
+					if accounts {
+						maps = append(maps, k)
+					}
 				}
 			}
 			sort.Strings(maps)
